@@ -3,5 +3,6 @@ pub mod prng;
 pub mod px;
 pub mod report;
 pub mod run;
+pub mod stmt;
 #[cfg(feature = "sqlite")]
 pub mod sqlite;
